@@ -55,6 +55,25 @@ theorem relList_ok (what : String) (all : List Nat) : ∀ (gs : List (Option Nat
       · exact e g' hg'
 
 
+theorem relOne_mono (what : String) (r : Rel) (g : Nat) (f : Int) (p : Nat × Nat) (hp : p ∈ r) : p ∈ (relOne what r g f).1 := by
+  unfold relOne
+  split
+  · exact hp
+  · exact List.mem_cons_of_mem _ hp
+
+theorem relList_mono (what : String) : ∀ (gs : List (Option Nat)) (fs : List Int) (r : Rel) (p : Nat × Nat), p ∈ r →
+    p ∈ (relList what r gs fs).1
+  | [], [], r, p, hp => by simpa [relList] using hp
+  | none :: gs, f :: fs, r, p, hp => by
+    simp only [relList]
+    exact relList_mono what gs fs r p hp
+  | some g :: gs, f :: fs, r, p, hp => by
+    simp only [relList]
+    exact relList_mono what gs fs _ p (relOne_mono what r g f p hp)
+  | [], f :: fs, r, p, hp => by simpa [relList] using hp
+  | g :: gs, [], r, p, hp => by
+    cases g <;> simpa [relList] using hp
+
 /-! ## one tensor -/
 
 theorem tensorProblems_ok (what : String) (m : ModelT) (td : TensorD) (tt : TensorT) (b : Nat) (h : tensorT td b = .ok tt)
@@ -183,6 +202,13 @@ def opStep (m : ModelT) (w : String) (acc : Rel × List Problem) (x : (POp × Op
     (c.1, acc.2 ++ codeProblems wo m lg x.1.2 ++ a.2 ++ b.2 ++ c.2 ++
       (if x.1.2.payload == lg.payload then [] else [⟨"option-payload", wo⟩]) ++
       (if x.1.2.mutating == some [] && x.1.2.extra.isEmpty then [] else [⟨"operator-extra-fields", wo⟩]))
+
+theorem opStep_mono (m : ModelT) (w : String) (acc : Rel × List Problem) (x : (POp × OperatorT) × Nat) (p : Nat × Nat)
+    (hp : p ∈ acc.1) : p ∈ (opStep m w acc x).1 := by
+  unfold opStep
+  cases lowerOp x.1.1 with
+  | none => exact hp
+  | some lg => exact relList_mono _ _ _ _ _ (relList_mono _ _ _ _ _ (relList_mono _ _ _ _ _ hp))
 
 def specOuts2 (ps : PSub) : List Nat :=
   match ps.sg.originalOutputPositions with
@@ -319,5 +345,211 @@ theorem specOuts2_eq (ps : PSub) (outs2 : List Nat) (h : outputList ps.sg.origin
   | some pos =>
     rw [hp] at h
     exact (outputList_spec _ pos outs2 h).symm
+
+
+/-! ## one subgraph -/
+
+theorem lowerOp_fields (p : POp) (lg : LOp) (h : lowerOp p = some lg) :
+    lg.inputs = p.inputs ∧ lg.outputs = p.outputs.filterMap id ∧ lg.intermediates = p.intermediates.filterMap id := by
+  unfold lowerOp at h
+  cases hi : p.info.inv with
+  | none => simp [hi] at h
+  | some x =>
+    obtain ⟨tf, ser, wt⟩ := x
+    simp only [hi, Option.some.injEq] at h
+    subst h
+    exact ⟨rfl, rfl, rfl⟩
+
+/-- what is known about one written subgraph (from `write_facts`) -/
+structure SgFacts (d : Desc) (m : ModelT) (codes : List Code) (ps : PSub) (f : SubGraphT) : Prop where
+  loc : SgLocal d.tensors codes ps f
+  tlen : f.tensors.length = (sgAll d.tensors ps).length
+  tens : ∀ (i g : Nat), (sgAll d.tensors ps)[i]? = some g → ∃ td tt, d.tensors[g]? = some td ∧ f.tensors[i]? = some tt ∧
+    tensorT td tt.buffer = .ok tt ∧ m.buffers[tt.buffer]? = some { data := td.values }
+  codes : ∀ (i : Nat) c, codes[i]? = some c → ∃ oc, m.opcodes[i]? = some oc ∧ serialiseOpCode c = .ok oc
+  info : ∀ p ∈ ps.ops, p.info.tableOk = true ∧ (p.ignored = false → p.info.inv.isSome = true)
+
+/-- the part of the writer's domain on which the Spec's reading of a subgraph and the writer's agree:
+* `outs`: every subgraph output (virtual outputs removed, original positions expanded) is a written tensor — the writer silently
+  drops an output that is neither an original input nor an operand of a written operator or of a Placeholder
+  (`if tens in self.tensor_map_sg`), the Spec reports `operand-count`;
+* `plain`: a Placeholder has no operands or intermediates of its own (its operands would be written without any operator or
+  interface list referring to them; the Spec reports `unexplained-tensor`) -/
+structure SgDomain (ps : PSub) : Prop where
+  outs : ∀ g ∈ specOuts2 ps, g ∈ sgSet ps
+  plain : ∀ p ∈ ps.ops, p.placeholder = true → p.ignored = true → ∀ g, some g ∉ p.inputs ++ p.intermediates
+
+theorem subgraph_ok (d : Desc) (m : ModelT) (codes : List Code) (k : Nat) (ps : PSub) (f : SubGraphT)
+    (hf : SgFacts d m codes ps f) (hd : SgDomain ps) :
+    (subgraphProblems d m k ps f).2 = [] ∧ RelExpl (sgAll d.tensors ps) (subgraphProblems d m k ps f).1 := by
+  obtain ⟨outs2, operators, l1, l2, l3, l4, l5, l6, l7⟩ := hf.loc
+  have hnd := sgAll_nodup d.tensors ps
+  -- inputs
+  have hin : List.Forall₂ (OperandOk (sgAll d.tensors ps)) (ps.sg.originalInputs.map some) (optList f.inputs) := by
+    rw [l4]
+    simp only [optList, Option.getD_some]
+    refine forall₂_some (idxList_spec _ _ ?_)
+    intro g hg
+    rw [mem_sgAll]; unfold sgSet; rw [mem_tensorSet]; exact Or.inl hg
+  obtain ⟨i1, i2, _, i4⟩ := relList_ok s!"{s!"subgraph {k}"} inputs" (sgAll d.tensors ps) _ _ [] hin (by intro p hp; simp at hp)
+  -- outputs
+  have hout : List.Forall₂ (OperandOk (sgAll d.tensors ps)) ((specOuts2 ps).map some) (optList f.outputs) := by
+    rw [l5, specOuts2_eq ps outs2 l1]
+    simp only [optList, Option.getD_some]
+    refine forall₂_some (idxList_spec _ _ ?_)
+    intro g hg
+    rw [mem_sgAll]
+    exact hd.outs g (by rw [specOuts2_eq ps outs2 l1]; exact hg)
+  obtain ⟨o1, o2, o3, _⟩ := relList_ok s!"{s!"subgraph {k}"} outputs" (sgAll d.tensors ps) _ _ (relIn k ps f).1 hout i2
+  have i1' : (relIn k ps f).2 = [] := i1
+  have o1' : (relOut k ps f).2 = [] := o1
+  -- operators
+  obtain ⟨ol, of⟩ := mapM_ok _ _ _ l2
+  have hops := foldl_inv_mem
+    (fun acc : Rel × List Problem => acc.2 = [] ∧ RelExpl (sgAll d.tensors ps) acc.1 ∧ ∀ p ∈ (relOut k ps f).1, p ∈ acc.1)
+    (fun (x : (POp × OperatorT) × Nat) (acc : Rel × List Problem) => ∀ g, some g ∈ x.1.1.operands → ∃ n, (g, n) ∈ acc.1)
+    (opStep m s!"subgraph {k}") ((specOps ps).zip f.operators).zipIdx ((relOut k ps f).1, [])
+    ⟨rfl, o2, fun p hp => hp⟩ ?_ ?_
+  rotate_left
+  · -- one step
+    intro acc x hx ⟨ha1, ha2, ha3⟩
+    obtain ⟨⟨p, o⟩, j⟩ := x
+    have hz := List.mem_zipIdx_iff_getElem?.mp hx
+    obtain ⟨hzp, hzo⟩ := List.getElem?_zip_eq_some.mp hz
+    simp only at hzp hzo
+    have hpm : p ∈ (sgOps ps).filter (!·.ignored) := List.mem_of_getElem? hzp
+    obtain ⟨o', ho', hser⟩ := of j p hzp
+    rw [← l3, hzo] at ho'
+    obtain rfl := Option.some.inj ho'
+    obtain ⟨hps, hig⟩ := List.mem_filter.mp hpm
+    obtain ⟨p', hp', e1, e2, _⟩ := clearVirtual_mem _ _ p hps
+    obtain ⟨t1, t2⟩ := hf.info p' hp'
+    have hig' : p.ignored = false := by simpa using hig
+    obtain ⟨lg, g1, g2, g3, g4, g5, g6, g7, g8⟩ := operator_ok s!"{s!"subgraph {k}"} operator {j}" m codes (sgAll d.tensors ps) p o hser
+      (by rw [e1]; exact t1) (by rw [e1]; exact t2 (by rw [← e2]; exact hig')) hf.codes
+      (fun g hg => operand_mem d.tensors ps p hpm g hg)
+    obtain ⟨a1, a2, a3, a4⟩ := relList_ok s!"{s!"{s!"subgraph {k}"} operator {j}"} inputs" (sgAll d.tensors ps) _ _ acc.1 g6 ha2
+    obtain ⟨b1, b2, b3, b4⟩ := relList_ok s!"{s!"{s!"subgraph {k}"} operator {j}"} outputs" (sgAll d.tensors ps) _ _ _ g7 a2
+    obtain ⟨c1, c2, c3, c4⟩ := relList_ok s!"{s!"{s!"subgraph {k}"} operator {j}"} intermediates" (sgAll d.tensors ps) _ _ _ g8 b2
+    simp only [opStep, g1]
+    refine ⟨⟨?_, c2, fun q hq => c3 q (b3 q (a3 q (ha3 q hq)))⟩, ?_⟩
+    · simp only [ha1, g2, a1, b1, c1, g3, g4, g5]
+      simp
+    · intro g hg
+      unfold POp.operands at hg
+      simp only [List.mem_append] at hg
+      obtain ⟨q1, q2, q3⟩ := lowerOp_fields p lg g1
+      rcases hg with (hg | hg) | hg
+      · obtain ⟨n, hn⟩ := a4 g (by rw [q1]; exact hg)
+        exact ⟨n, c3 _ (b3 _ hn)⟩
+      · obtain ⟨n, hn⟩ := b4 g (by rw [q2]; simp; exact hg)
+        exact ⟨n, c3 _ hn⟩
+      · exact c4 g (by rw [q3]; simp; exact hg)
+  · -- monotone
+    intro acc x x' hx' ⟨ha1, ha2, ha3⟩ hq g hg
+    obtain ⟨n, hn⟩ := hq g hg
+    exact ⟨n, opStep_mono _ _ _ _ _ hn⟩
+  obtain ⟨⟨hR2, hRE, hR3⟩, hQ⟩ := hops
+  change (relOps m k ps f).2 = [] at hR2
+  change RelExpl (sgAll d.tensors ps) (relOps m k ps f).1 at hRE
+  change ∀ p ∈ (relOut k ps f).1, p ∈ (relOps m k ps f).1 at hR3
+  change ∀ a ∈ ((specOps ps).zip f.operators).zipIdx, ∀ g, some g ∈ a.1.1.operands → ∃ n, (g, n) ∈ (relOps m k ps f).1 at hQ
+  have hrE : RelExpl (sgAll d.tensors ps) (relOps m k ps f).1.eraseDups := fun p hp => hRE p (List.mem_eraseDups.mp hp)
+  -- a pair for g at position i is the pair (g, i)
+  have hpos : ∀ (g n i : Nat), (g, n) ∈ (relOps m k ps f).1 → (sgAll d.tensors ps)[i]? = some g → n = i := by
+    intro g n i hm hi
+    have hn := hRE _ hm
+    have hnl : n < (sgAll d.tensors ps).length := (List.getElem?_eq_some_iff.mp hn).1
+    exact (List.getElem?_inj hnl hnd).mp (hn.trans hi.symm)
+  rw [subgraphProblems_snd, subgraphProblems_fst]
+  refine ⟨?_, hrE⟩
+  have e0 : sgP0 k ps f = [] := by
+    unfold sgP0
+    have : f.operators.length = (specOps ps).length := by rw [l3, ol]; rfl
+    simp [this, l6]
+  have e3 : oneToOne (relOps m k ps f).1.eraseDups = [] := by
+    unfold oneToOne
+    rw [List.flatMap_eq_nil_iff]
+    intro a ha
+    rw [List.filterMap_eq_nil_iff]
+    intro b hb
+    have hA := hrE a ha
+    have hB := hrE b hb
+    have hal : a.2 < (sgAll d.tensors ps).length := (List.getElem?_eq_some_iff.mp hA).1
+    by_cases h1 : a.1 = b.1
+    · have : a.2 = b.2 := (List.getElem?_inj hal hnd).mp (by rw [hA, hB, h1])
+      simp [h1, this]
+    · by_cases h2 : a.2 = b.2
+      · rw [h2, hB] at hA
+        exact absurd (Option.some.inj hA).symm h1
+      · simp [h1, h2]
+  have e4 : sgP4 d m k f (relOps m k ps f).1.eraseDups = [] := by
+    unfold sgP4
+    rw [List.flatMap_eq_nil_iff]
+    intro x hx
+    obtain ⟨g, i⟩ := x
+    obtain ⟨td, tt, t1, t2, t3, t4⟩ := hf.tens i g (hrE _ hx)
+    simp only [t1, t2]
+    exact tensorProblems_ok _ m td tt _ t3 t4
+  have e5 : sgP5 d m k ps f (relOps m k ps f).1.eraseDups = [] := by
+    unfold sgP5
+    rw [List.flatMap_eq_nil_iff]
+    intro i hi
+    have hil : i < (sgAll d.tensors ps).length := by rw [← hf.tlen]; exact List.mem_range.mp hi
+    have hig : (sgAll d.tensors ps)[i]? = some (sgAll d.tensors ps)[i] := List.getElem?_eq_getElem hil
+    generalize (sgAll d.tensors ps)[i] = g at hig
+    obtain ⟨td, tt, t1, t2, t3, t4⟩ := hf.tens i g hig
+    by_cases hany : (relOps m k ps f).1.eraseDups.any (·.2 == i) = true
+    · simp [hany]
+    · have hno : ∀ n, (g, n) ∈ (relOps m k ps f).1 → False := by
+        intro n hn
+        have := hpos g n i hn hig
+        subst this
+        exact hany (List.any_eq_true.mpr ⟨(g, n), List.mem_eraseDups.mpr hn, by simp⟩)
+      have hgm : g ∈ sgAll d.tensors ps := List.mem_of_getElem? hig
+      rw [mem_sgAll] at hgm
+      unfold sgSet at hgm
+      rw [mem_tensorSet] at hgm
+      have hpl : g ∈ specPlaceholders ps := by
+        rcases hgm with hgi | ⟨op, hop, hkind, hgo⟩
+        · obtain ⟨n, hn⟩ := i4 g (List.mem_map.mpr ⟨g, hgi, rfl⟩)
+          exact (hno n (hR3 _ (o3 _ hn))).elim
+        · by_cases hign : op.ignored = false
+          · have hmf : op ∈ (sgOps ps).filter (!·.ignored) := List.mem_filter.mpr ⟨hop, by simp [hign]⟩
+            obtain ⟨j, hj⟩ := List.getElem?_of_mem hmf
+            obtain ⟨o, ho, _⟩ := of j op hj
+            have hz : ((op, o), j) ∈ ((specOps ps).zip f.operators).zipIdx := by
+              rw [List.mem_zipIdx_iff_getElem?]
+              exact List.getElem?_zip_eq_some.mpr ⟨hj, by rw [l3]; exact ho⟩
+            obtain ⟨n, hn⟩ := hQ _ hz g hgo
+            exact (hno n hn).elim
+          · have hign' : op.ignored = true := by simpa using hign
+            have hplc : op.placeholder = true := by
+              rcases hkind with h | h
+              · exact absurd h hign
+              · exact h
+            obtain ⟨p', hp', _, e2, e3', e4', e5', e6'⟩ := clearVirtual_mem _ _ op hop
+            have hnot := hd.plain p' hp' (by rw [← e3']; exact hplc) (by rw [← e2]; exact hign') g
+            unfold POp.operands at hgo
+            simp only [List.mem_append] at hgo hnot
+            have hout' : some g ∈ p'.outputs := by
+              rcases hgo with (h | h) | h
+              · exact absurd (Or.inl (by rw [← e4']; exact h)) hnot
+              · rcases e6' with e | e
+                · rw [← e]; exact h
+                · rw [e] at h; simp at h
+              · exact absurd (Or.inr (by rw [← e5']; exact h)) hnot
+            unfold specPlaceholders
+            rw [List.mem_flatMap]
+            exact ⟨p', List.mem_filter.mpr ⟨hp', by rw [← e3']; exact hplc⟩, by simpa using hout'⟩
+      have hany2 : ((specPlaceholders ps).any fun g => match d.tensors[g]? with
+          | some gt => (tensorProblems "" m gt tt).isEmpty
+          | none => false) = true := by
+        rw [List.any_eq_true]
+        exact ⟨g, hpl, by simp [t1, tensorProblems_ok "" m td tt _ t3 t4]⟩
+      simp only [hany, t2, hany2]
+      simp
+  rw [e0, i1', o1', hR2, e3, e4, e5]
+  rfl
 
 end VelaVerif.Tflite.Spec
